@@ -44,7 +44,7 @@ def run_shard(desc, ctx):
     N, sh, ns = desc['N'], desc['shard'], desc['n']
     idx = 0
     CS = 17 if desc['tier'] == 'quick' else N + 1
-    for n in range(1, N + 1):
+    for n in range(0, N + 1):
         for cs in range(1, CS):
             for ov in range(0, cs):
                 idx += 1
@@ -108,7 +108,7 @@ def run_case(case, ctx):
 def _case_chunk_bounds(case, ctx):
     from phylib.io.array import chunk_bounds, data_chunk
     n, cs, ov = case['n'], case['chunk'], case['overlap']
-    nontriv = (n % (cs - ov) != 0) or n < cs or ov % 2 == 1
+    nontriv = n > 0 and ((n % (cs - ov) != 0) or n < cs or ov % 2 == 1)
     ctx.count(1, key=hkey('cb', n, cs, ov), nontrivial=nontriv, cell=('chunk_bounds', 'ov%d' % (ov % 2)))
     ctx.sample(case, every=2003)
     npint = (n + cs + ov) % 3 == 0      # NumPy integer arguments are as good as Python ints
